@@ -219,6 +219,9 @@ func (P *curvePoint) UnmarshalBinary(buf []byte) error {
 
 	P.x = new(big.Int).SetBytes(buf[1 : 1+byteLen])
 	P.y = new(big.Int).SetBytes(buf[1+byteLen : 1+2*byteLen])
+	if !P.Valid() {
+		return errors.New("invalid point: coordinates are not on the curve")
+	}
 	return nil
 }
 
